@@ -7,7 +7,7 @@ Sub-checks
   eos               EOS: |A-B| bounded by an estimate of the truncation error of the (approximate) drift.
   keep              keep_unsynchronized=1 (WHFast, SABA): run D with a generated interleaving of outputs between
                     steps; every output of D equals, bit for bit, the output at that time of a run that was never
-                    touched before (R_k).
+                    touched before (R_k), and to rounding the output of a deferred run without the option.
   keep512           the same for WHFast512.
   twice             synchronize(); synchronize() == synchronize(), all integrators, also before the first step.
   twice512          the same for WHFast512.
@@ -28,7 +28,7 @@ RULE = ("Generated planetary systems (2-5 bodies, up to 9 for WHFast512, optiona
         "documented option lattice of WHFast (coordinates x kernels x correctors), SABA (18 types), MERCURIUS "
         "(4 switching functions), EOS (9x9 schemes x n) or WHFast512 (N_systems, gr_potential), a step size of either "
         "sign and a generated schedule of segments [(how to advance, number of steps, operations afterwards)].  "
-        "deferred*: safe-mode twin vs deferred twin compared at every synchronisation to K*eps*steps*scale; eos: "
+        "deferred*: safe-mode twin vs deferred twin compared at every synchronisation to K*eps*(operator applications per step)*steps*scale; eos: "
         "difference bounded by the measured truncation error of the drift; keep*: every output of the run with "
         "interleaved synchronize/energy/orbits/copy/save/pickle/heartbeat operations bitwise equal to the output of "
         "an untouched run stopped at that time; twice*: state after two synchronisations bitwise equal to the state "
@@ -40,7 +40,7 @@ ASSUMPTIONS = [
     "safe mode for WHFast512 (which has no safe_mode flag) means synchronising after every step",
     "rounding tolerance K*eps*cond*scale with cond = (elementary operator applications per safe-mode step, counted from the "
     "scheme: 5 for plain WH ... 221 for corrector 17 + corrector2) * (steps+4), scale = max |r_i| resp. max |v_i| of the "
-    "safe-mode twin, K=16; chosen by looking at the error distribution: max observed ratio 0.07 over seeds 1-8",
+    "safe-mode twin, K=16; chosen by looking at the error distribution: max observed ratio 0.07 over quick seeds 1-8 and one thorough run (210k cases)",
     "EOS: the truncation error of the approximate drift of each twin X is estimated by halving its inner step: "
     "err_X <= 2*|X(n)-X(2n)| (valid for any order >= 1 in the asymptotic regime); allowed |A-B| = 2*(err_A+err_B) + rounding floor",
     "generated systems are well separated (no close encounters), bound, |dt| <= P_min/20",
